@@ -82,8 +82,24 @@ SumIds(st, i) == IF i > Len(st) THEN 0
 RECURSIVE SumTables(_, _)
 SumTables(st, i) == IF i > Len(st) THEN 0 ELSE Tables(st[i]) + SumTables(st, i + 1)
 
+\* zero-sized elements cannot carry an identity; their creations and drops are counted instead: the live ZST
+\* keys (values) *before* a call -- when every temporary of the previous call is gone -- are exactly the
+\* elements the maps held in the previous snapshot (after an injected panic: at least -- an interrupted
+\* clone_from may leak clones, but nothing may have been dropped twice)
+RECURSIVE SumLens(_, _, _)
+SumLens(st, i, mapsOnly) ==
+    IF i > Len(st) THEN 0
+    ELSE (IF mapsOnly /\ st[i].ty # "map" THEN 0 ELSE st[i].len) + SumLens(st, i + 1, mapsOnly)
+ZstLive(e) ==
+    HasF(e, "zl0") =>
+        Chk("C06", "zst_live_objects", e,
+            IF ctx.postFault
+            THEN e.zl0[1] >= SumLens(snap, 1, FALSE) /\ e.zl0[2] >= SumLens(snap, 1, TRUE)
+            ELSE e.zl0[1] = SumLens(snap, 1, FALSE) /\ e.zl0[2] = SumLens(snap, 1, TRUE))
+
 GlobalMon(e, la) ==
     /\ \A i \in DOMAIN e.st : SlotMon(e, e.st[i])
+    /\ ZstLive(e)
     /\ Chk("C05,C06", "no_use_of_dead_object", e, e.led.dead = <<>>)
     /\ Chk("C06", "no_double_drop", e, e.led.dd = <<>>)
     /\ Chk("C06", "no_shared_objects", e, SumIds(e.st, 1) = Cardinality(AllIds(e.st)))
@@ -969,6 +985,9 @@ Step ==
                 /\ Chk("C06", "nothing_leaks", e,
                        /\ (IF ctx.leakUnknown THEN leakIds \subseteq ToSet(e.live_ids) ELSE ToSet(e.live_ids) = leakIds)
                        /\ (HasF(e, "par") \/ e.live_allocs = leakAllocs)) = TRUE
+                /\ (HasF(e, "zl") =>
+                       Chk("C06", "zst_all_dropped_exactly_once", e,
+                           IF ctx.postFault THEN e.zl[1] >= 0 /\ e.zl[2] >= 0 ELSE e.zl[1] = 0 /\ e.zl[2] = 0)) = TRUE
                 /\ UNCHANGED <<snap, leakIds, leakAllocs, ctx>>
          [] OTHER ->
                 LET lk == LeakOf(e) IN
